@@ -231,7 +231,9 @@ type c18Log struct {
 	Published int64     // size of the checkpoint in storage
 	LockSize  int64     // size of the checkpoint in the lock store (>= Published)
 	NextCert  int
-	names     map[string][]byte // rendered names tiles (rendered variant)
+	// looseNames: names tiles of opaque (unparseable) certificates legitimately
+	// lack lines once the real server rebuilt them, so only presence is audited.
+	looseNames bool
 }
 
 func (l *c18Log) appendCert(certIdx int, timestamp int64) {
@@ -666,6 +668,9 @@ func (l *c18Log) audit(size int64) error {
 			}
 		case "names":
 			lines := bytes.Count(got, []byte("\n"))
+			if l.looseNames {
+				continue
+			}
 			if (!fromFull && lines != ref.Width) || (fromFull && lines < ref.Width) {
 				return fmt.Errorf("%s holds %d lines, want %d", ref.Path(), lines, ref.Width)
 			}
@@ -900,22 +905,28 @@ func c18GenReal(t *rapid.T, thorough bool) *c18RealPlan {
 			p.Rounds = c18GenRounds(t, "round", target, 40)
 		}
 	}
-	if rapid.IntRange(0, 2).Draw(t, "lockAhead") == 0 {
+	if rapid.Bool().Draw(t, "lockAhead") {
 		n := 1
 		if !p.Server {
 			n = rapid.IntRange(1, 2).Draw(t, "lockRounds")
 		}
+		at := target
 		for i := 0; i < n; i++ {
-			switch rapid.IntRange(0, 3).Draw(t, "lockKind") {
+			var k int
+			switch rapid.IntRange(0, 4).Draw(t, "lockKind") {
 			case 0:
-				p.LockRounds = append(p.LockRounds, rapid.IntRange(1, 9).Draw(t, "lockS"))
-			case 1:
-				p.LockRounds = append(p.LockRounds, 256-int(target%256)) // completes the right-edge tile
+				k = rapid.IntRange(1, 9).Draw(t, "lockS")
+			case 1, 2:
+				// completes the right-edge tile (and goes a little beyond): the
+				// right-edge partials of the published tree get a full sibling
+				k = 256 - int(at%256) + rapid.SampledFrom([]int{0, 0, 1, 40, 300}).Draw(t, "lockBeyond")
 			default:
-				p.LockRounds = append(p.LockRounds, rapid.IntRange(10, 400).Draw(t, "lockM"))
+				k = rapid.IntRange(10, 400).Draw(t, "lockM")
 			}
+			p.LockRounds = append(p.LockRounds, k)
+			at += int64(k)
 		}
-		p.Keep = rapid.IntRange(0, 4).Draw(t, "keep")
+		p.Keep = rapid.SampledFrom([]int{3, 2, 4, 1, 0}).Draw(t, "keep")
 		p.Salt = rapid.Uint32().Draw(t, "salt")
 	}
 	p.Immutable = rapid.IntRange(0, 3).Draw(t, "immutable") != 0
@@ -935,6 +946,9 @@ func c18GenReal(t *rapid.T, thorough bool) *c18RealPlan {
 	}
 	if p.Server {
 		p.Restart = rapid.SampledFrom([]int{1, 1, 2, 5, 20, 256}).Draw(t, "restart")
+	} else if len(p.LockRounds) == 0 && rapid.Bool().Draw(t, "restartRendered") {
+		// the real server takes over a rendered directory after the tool ran
+		p.Restart = rapid.SampledFrom([]int{1, 2, 5, 20}).Draw(t, "restart")
 	}
 	return p
 }
@@ -984,8 +998,10 @@ func c18KeepFunc(keep int, salt uint32) func(string) bool {
 // leftovers
 
 // c18Inject applies the planned leftovers to the directory dir whose
-// published size is size. It returns a label per applied injection.
-func c18Inject(dir string, size int64, inj []c18Inj) ([]string, error) {
+// published size is size and which already holds tiles of a tree of size
+// ahead >= size (lock store / mirror uploads ahead). It returns a label per
+// applied injection.
+func c18Inject(dir string, size, ahead int64, inj []c18Inj) ([]string, error) {
 	var applied []string
 	for _, in := range inj {
 		var files, pdirs []string
@@ -1051,7 +1067,7 @@ func c18Inject(dir string, size int64, inj []c18Inj) ([]string, error) {
 			}
 			applied = append(applied, "empty-partial")
 		case "empty-beyond":
-			ref := vfref.TileRef{Kind: []string{"", "data", "names"}[in.Seed%3], Level: 0, Index: size/256 + 1 + int64(in.Seed/3%3), Width: 256}
+			ref := vfref.TileRef{Kind: []string{"", "data", "names"}[in.Seed%3], Level: 0, Index: ahead/256 + 3 + int64(in.Seed/3%3), Width: 256} // clear of anything the server will ever write in this test
 			if ref.Kind != "" {
 				ref.Level = -1
 			}
@@ -1223,12 +1239,12 @@ func TestVerifC18Real(t *testing.T) {
 		}
 
 		// ---- leftovers
-		applied, err := c18Inject(l.Dir, l.Published, p.Inj)
+		applied, err := c18Inject(l.Dir, l.Published, l.LockSize, p.Inj)
 		if err != nil {
 			c18Inconclusive("cannot inject leftovers: %v", err)
 		}
 		if mir != nil {
-			a2, err := c18Inject(filepath.Join(base, filepath.FromSlash(mir.Prefix)), mir.Size, p.Mirror.Inj)
+			a2, err := c18Inject(filepath.Join(base, filepath.FromSlash(mir.Prefix)), mir.Size, mir.Ahead, p.Mirror.Inj)
 			if err != nil {
 				c18Inconclusive("cannot inject leftovers: %v", err)
 			}
@@ -1312,8 +1328,17 @@ func TestVerifC18Real(t *testing.T) {
 		}
 
 		// ---- the server restarts on the cleaned directory and keeps sequencing
-		if p.Server {
+		if p.Restart > 0 {
 			lockSize := l.LockSize
+			if !p.Server {
+				ck, err := os.ReadFile(filepath.Join(l.Dir, "checkpoint"))
+				if err != nil {
+					c18Inconclusive("cannot read back the checkpoint: %v", err)
+				}
+				l.Lock.m[sha256.Sum256(c18SPKI(l.Key))] = ck
+				l.looseNames = true
+				addClass("restarted-on-rendered")
+			}
 			if err := c18ServerRun(t, l, false, 400*24*time.Hour, []int{p.Restart}, -1, 4, 0); err != nil {
 				failf("the server cannot restart and sequence on the cleaned directory (published %d, lock %d): %v", l.Published, lockSize, err)
 			}
